@@ -2,8 +2,8 @@
    these definitions of /repo; tools/srcfacts.py regenerates their normal-form digests on every run (coq/Gen/Src_*.v).
    Statements only. *)
 From Coq Require Import List String.
-From ME Require Import Model.SrcExpected Gen.Src_timeout Gen.Src_map Gen.Src_common Gen.Src_ftimeout
-  Proofs.Src_ok_timeout Proofs.Src_ok_map Proofs.Src_ok_common Proofs.Src_ok_ftimeout.
+From ME Require Import Model.SrcExpected Gen.Src_timeout Gen.Src_map Gen.Src_common Gen.Src_ftimeout Gen.Src_helpers Gen.Src_event
+  Proofs.Src_ok_timeout Proofs.Src_ok_map Proofs.Src_ok_common Proofs.Src_ok_ftimeout Proofs.Src_ok_helpers Proofs.Src_ok_event.
 
 (* more_executors/_impl/timeout.py *)
 Theorem c09_source_timeout : Src_timeout.facts = expected_timeout.
@@ -17,8 +17,16 @@ Proof. exact src_common_ok. Qed.
 (* more_executors/_impl/futures/timeout.py *)
 Theorem c09_source_ftimeout : Src_ftimeout.facts = expected_ftimeout.
 Proof. exact src_ftimeout_ok. Qed.
+(* more_executors/_impl/helpers.py *)
+Theorem c09_source_helpers : Src_helpers.facts = expected_helpers.
+Proof. exact src_helpers_ok. Qed.
+(* more_executors/_impl/event.py *)
+Theorem c09_source_event : Src_event.facts = expected_event.
+Proof. exact src_event_ok. Qed.
 
 Print Assumptions c09_source_timeout.
 Print Assumptions c09_source_map.
 Print Assumptions c09_source_common.
 Print Assumptions c09_source_ftimeout.
+Print Assumptions c09_source_helpers.
+Print Assumptions c09_source_event.
